@@ -42,7 +42,7 @@ func c34Targets() []verifc34.Target {
 			bs, err := collectRecoverableBatches(in.Data, c34Cutoff(in.Data, v))
 			return len(bs), err
 		}},
-		{Name: "buildRestorePlan", Variants: 2, Fn: func(in *verifc34.Input, v int) (int, error) {
+		{Name: "buildRestorePlan", Variants: 1, Fn: func(in *verifc34.Input, v int) (int, error) {
 			idx := in.Aux
 			if idx == nil {
 				idx = []byte("IDX\x00\x00\x01\x00\x00\x00\x00\x00\x00\x00\x64\x00\x00")
@@ -107,7 +107,7 @@ func TestVerifC34Storage(t *testing.T) {
 	if err := verifc34.Drive(r, idx, "storage_index", func(in *verifc34.Input) bool { return len(in.Data) >= 16 && string(in.Data[:4]) == "IDX\x00" }); err != nil {
 		t.Fatalf("harness: %v", err)
 	}
-	r.Floor("collectRecoverableBatches_calls", 4000)
+	r.Floor("collectRecoverableBatches_calls", 3000)
 	r.Floor("collectRecoverableBatches_calls_returning_items", 50)
 	r.Floor("RecoverTopicToTimestamp_calls_returning_items", 20)
 	r.Floor("ParseIndex_calls", 100)
